@@ -937,7 +937,58 @@ def m_addr_rvalue(L, rng):
     return L[:blanks[0]] + [decl] + L[blanks[0]:i] + ["\t(void)&%s;" % e] + L[i:], "address of a %s rvalue: &%s" % (k, e)
 
 
+NL_QUEUE = []
+NONLVALUES = [   # (declarations at file scope, local declarations, expression that is not a modifiable lvalue)
+    ("int c10_ga[3];", "", "c10_ga"),
+    ("", "int c10_la[4] = {0};", "c10_la"),
+    ("struct c10_as { int c10_n; int c10_arr[2]; } c10_sv;", "", "c10_sv.c10_arr"),
+    ("struct c10_as { int c10_n; int c10_arr[2]; } c10_sv;", "struct c10_as *c10_sp = &c10_sv;", "c10_sp->c10_arr"),
+    ("char c10_g2[2][3];", "", "c10_g2[1]"),
+    ("", "", '"c10"'),
+    ("void c10_fd(void);", "", "c10_fd"),
+    ("struct c10_rs { int c10_a; }; struct c10_rs c10_rf(void);", "", "c10_rf().c10_a"),
+    ("int c10_fi(void);", "", "c10_fi()"),
+    ("int c10_i, c10_j;", "", "(c10_i ? c10_i : c10_j)"),
+    ("int c10_i, c10_j;", "", "(c10_i, c10_j)"),
+    ("int c10_i;", "", "(c10_i + 1)"),
+    ("int c10_i;", "", "-c10_i"),
+    ("int c10_i;", "", "(c10_i = 2)"),
+    ("int c10_i;", "", "c10_i++"),
+    ("", "", "1"),
+    ("", "", "1.5"),
+    ("enum { c10_ec = 3 };", "", "c10_ec"),
+    ("int c10_i;", "", "sizeof c10_i"),
+    ("int *c10_p;", "", "&*c10_p"),
+]
+
+
+def m_nonlvalue_lhs(L, rng):
+    """assignment, compound assignment, ++ or -- applied to something that is not an lvalue: an array (object, member,
+    string literal), a function designator, a member of a struct rvalue, a call, a conditional, a comma expression, an
+    arithmetic expression, a constant"""
+    c = _body_starts(L)
+    blanks = [i for i, ln in enumerate(L) if ln == ""]
+    if not c or not blanks:
+        return None
+    if not NL_QUEUE:
+        forms = ["%s += 1;", "%s -= 1;", "%s |= 1;", "%s *= 2;", "%s <<= 1;", "%s = 0;", "%s++;", "++%s;", "%s--;", "--%s;"]
+        # arrays, string literals, function designators, members of rvalues with the compound operators first: their
+        # "lvalue-ness" is lost only through the 6.3.2.1 conversions, the easiest test to get wrong
+        first = [(x, f) for x in NONLVALUES[:9] for f in forms[:6]]
+        rest = [(x, f) for x in NONLVALUES for f in forms if (x, f) not in first]
+        rng.shuffle(first)
+        rng.shuffle(rest)
+        NL_QUEUE.extend(first + rest)
+    (gd, ld, e), form = NL_QUEUE.pop(0)
+    stmt = form % e
+    i = rng.choice([x for x in c if x > blanks[0]] or c)
+    new = L[:blanks[0]] + ([gd] if gd else []) + L[blanks[0]:i] + (["\t" + ld] if ld else []) + ["\t" + stmt] + L[i:]
+    return new, "left operand is not an lvalue: " + stmt
+
+
 MUTATORS = [
+    ("non-lvalue-left-operand", m_nonlvalue_lhs, [S("expr.c", "assignexpr", "left side of assignment expression is not an lvalue"),
+                                                  S("expr.c", "mkincdecexpr", "operand of '%s' operator must be an lvalue")]),
     ("variadic-too-few-args", m_variadic_too_few, [S("expr.c", "postfixexpr", "not enough arguments for function call")]),
     ("addr-of-rvalue", m_addr_rvalue, [S("expr.c", "unaryexpr", "'&' operand is not an lvalue or function designator"),
                                        S("expr.c", "mkunaryexpr", "'&' operand is not an lvalue or function designator")]),
@@ -1005,6 +1056,7 @@ def run_mutations(ck, bt, cc, hosts, judge, sitekeys, per_kind):
     rng = ck.rng
     jobs = []
     stats = {}
+    del NL_QUEUE[:]
     for name, fn, needs in MUTATORS:
         st = stats.setdefault(name, {"site_in_source": any(s in sitekeys for s in needs), "generated": 0,
                                      "gcc_and_clang_reject": 0, "cproc_rejects": 0})
@@ -1012,7 +1064,8 @@ def run_mutations(ck, bt, cc, hosts, judge, sitekeys, per_kind):
             continue
         tries = 0
         made = 0
-        while made < per_kind and tries < per_kind * 4:
+        want = min(per_kind * 10, 600) if name == "non-lvalue-left-operand" else per_kind
+        while made < want and tries < want * 4:
             tries += 1
             h = rng.choice(hosts)
             r = fn(list(h.lines), rng)
